@@ -53,9 +53,9 @@ CHECKS = {
  "C14": ("A+B", "model_checking", A_TECH + "id ghost (consecutive numbering) + referential integrity on every state; plus " + B_TECH + " for formats",
          "Creation histories with failing creations interleaved from a fresh chain and from a valid genesis with counters at 9/99/999 and three credit types: ids unique, accepted by the chain's validators, parsers recover parents, numbered consecutively by successful creations only, all listed references resolve. Format part: formatted ids and all short strings / edit neighbours against a hand-written recogniser.",
          "§7 C14", TRUST),
- "C15": ("B", "exploration", B_TECH,
-         "All 65536+ values of every numeric field, every hash length 19..65, extension strings, and parser-side edit neighbours / synthetic base58check payloads: round trip identity, injectivity over all valid hashes enumerated, accepted IRIs re-encode identically.",
-         "§7 C15", "Trusted base: Go, base58 library used only to build inputs. gRPC wrappers ConvertHashToIRI/ConvertIRIToHash are not exercised."),
+ "C15": ("A+B", "model_checking", B_TECH + " for the conversion functions; plus " + A_TECH + "ghost of the successful data messages per content hash, injected colliding ID hashers, by-hash / by-IRI / conversion queries for a fixed universe of content hashes on every state",
+         "Conversion part: all 65536+ values of every numeric field, every hash length 19..65, extension strings, and parser-side edit neighbours / synthetic base58check payloads: round trip identity, injectivity over all valid hashes enumerated, accepted IRIs re-encode identically. On-chain part: over all histories of the data alphabet (9 content hashes incl. two with equal digest bytes and two never used, production and colliding ID hashers) every by-hash and by-IRI query answers with exactly the asked content hash's own record (IRI, hash, first anchor time, attestors, resolvers) or not at all.",
+         "§7 C15", TRUST + " base58 library used only to build inputs."),
  "C16": ("A", "model_checking", A_TECH + "ghost of first-anchor times / attestations / registrations, injected weak ID hashers",
          "Data-module alphabet (Anchor/Attest/DefineResolver/RegisterResolver, 6 content hashes, 3 signers, time steps) under the production hasher and under constant / few-output / repeating-byte digests with MinLength 1,4,8 built with the repository's own hasher constructor: ids of distinct IRIs differ and never change, first timestamps are permanent, registrations are never lost, only managers register to private resolvers.",
          "§7 C16", TRUST + " Uses the verif-tagged constructor hook."),
